@@ -337,7 +337,7 @@ def check_replace(r, tier, verdict, stats, o=None):
         """the recorded dictionary itself against the extracted recording model (RReplace.record)"""
         if o is None:
             return
-        for source in ("ctor", "rrulestr"):
+        for source in (("ctor",) if RP.has_empty(kw) else ("ctor", "rrulestr")):
             try:
                 impl = RP.record_impl(kw, source)
             except Exception as ex:
@@ -454,6 +454,11 @@ def run_rule(recipe, r, o, tier, verdict, stats, samples):
                               concrete=False)
         if model_gen[j] != spec[j] or model_fast[j] != spec[j]:
             stats["model_vs_coqspec"] += 1
+            if stats["model_vs_coqspec"] <= 3:
+                verdict.violation({"kind": "machinery: extracted model and extracted spec disagree (contradicts a theorem "
+                                           "unless L is not strictly increasing)", "input": {"L": L, "query": q},
+                                   "model_generator_path": model_gen[j], "model_complete_path": model_fast[j],
+                                   "spec": spec[j]}, concrete=False)
         if len(samples) < 14 and r.random() < 0.002:
             samples.append({"rule": R.describe(recipe), "n": n, "query": q, "impl_by_mode": {m: g for (m, g, _) in outs},
                             "model_generator_path": model_gen[j], "model_complete_path": model_fast[j],
@@ -642,6 +647,17 @@ def main():
                            "theorems": props["theorems"], "discharged": props["discharged"],
                            "input": None, "log_tail": props["log"][-3000:]}, concrete=False)
 
+    rs = stats.get("replace_stream") or {}
+    trunc = {"rules_stopped_by_time_budget": bool(stats.get("stopped_by_time_budget")),
+             "replace_stream_stopped_by_time_budget": bool(rs.get("stopped_by_time_budget")),
+             "rules": stats["rules"], "replace_cases": stats.get("replace_cases", 0),
+             "floor_rules": 40 if tier == "quick" else 150, "floor_replace_cases": 800 if tier == "quick" else 8000}
+    trunc["truncated"] = bool(trunc["rules_stopped_by_time_budget"] or trunc["replace_stream_stopped_by_time_budget"])
+    trunc["below_floor"] = bool(stats["rules"] < trunc["floor_rules"] or trunc["replace_cases"] < trunc["floor_replace_cases"])
+    if have_oracle and (stats["rules"] == 0 or trunc["replace_cases"] == 0) and not verdict.violations:
+        verdict.violation({"kind": "stream truncated: %d rules, %d replace() cases were run (time budget used up before "
+                                   "the stream started: machine overloaded?)" % (stats["rules"], trunc["replace_cases"]),
+                           "input": None, "truncation": trunc}, concrete=False)
     rc = verdict.finish()
     nontriv = len(stats.pop("nontrivial"))
     cov = {
@@ -657,6 +673,7 @@ def main():
                 "rule in random query order / cache complete. distinct = (rule, query, mode); non-trivial = the "
                 "list-level answer is a value, a non-empty list, True or a non-zero count",
         "exhaustive": False,
+        "truncation": trunc,
         "samples": samples[:12],
         "input_distribution": {"rules": stats["rules"], "by_kind": stats["kind_hist"],
                                "by_length": stats["len_hist"], "queries_by_kind": stats["q_hist"],
@@ -681,6 +698,22 @@ def main():
                                      "count() publication of _len by rrule._iter/rruleset._iter",
                                      "DST zones (aware rules use fixed-offset zones), non-int / non-slice subscripts"],
         "partial_theorems": [t for t in props["theorems"] if "partial" in t],
+        "tie_only": {
+            "C12_count": "count l and spec_count l are both zlen l; the content is C12_count_is_number_yielded "
+                         "(cached, `_len` field of the transition system) and C12_gen_count_after_any_history "
+                         "(uncached, under the assumption `published`: an exhausted generator assigns "
+                         "_len = number of items yielded)",
+            "C12_getitem": "spec_getitem is py_getitem; x = x on the complete path, for negative ints and slices "
+                           "with a negative component; the independent statement is C12_getitem_python_reference "
+                           "(explicit index arithmetic + arithmetic-progression slices, rcache/RSliceSpec.v)",
+            "C12_cached_path_eq_gen_path": "before/after/between/xafter conjuncts are reflexivity (same loop on "
+                                           "either iterable); content: getitem and contains conjuncts",
+            "C12_gen_count": "hypothesis `len = None or Some |L|` discharged by C12_gen_count_after_any_history",
+        },
+        "replace_guard_corner_bysetpos_empty": {
+            "status": "proved (C12_replace_setpos_empty, C12_normalize_setpos_empty): the rule differs in the "
+                      "attribute _bysetpos only (None instead of ()); rr/RRIter.v reads it through truthiness only",
+            "differential_cases": (stats.get("replace_stream") or {}).get("bysetpos_empty_cases", 0)},
         "known_findings_hit": verdict.known_hits,
         "translator": translator,
         "model_tie": "query methods / _iter_cached table / _invalidate_cache / __init__ regenerated from /repo's AST "
